@@ -145,32 +145,76 @@ package ratelimit
 //@   ensures invariants_established: result1 == nil ==> result0 != nil && fresh(result0) && entriesTyped(result0) && entriesBucketsOK(result0) && disjointSets(result0) && result0.bucketSets.vlen == 0 && fresh(result0.bucketSets)
 //@   ensures result1 == nil ==> result0.defaultRates == defaultRates && result0.bucketSets.capacity == max(result0.capacity, 0)
 
+// map model: a map with positive length has a key (Go maps; the heap model keeps length and domain as separate arrays)
+//@ axiom nonempty_rate_set_has_a_rate: forall rs *RateSet :: len(rs.m) >= 1 ==> (exists k int :: in(k, rs.m))
+
+//@ pred freshFull(tb *tokenBucket, r *rate) = tb != nil && fresh(tb) && tb.availableTokens == r.burst && tb.burst == r.burst && tb.lastRefresh == lastclock && tb.lastConsumed == 0 && tb.period == r.period && tb.timePerToken == r.period / r.average && tb.timePerToken >= 1
+
 //@ func NewTokenBucketSet
-//@   props C03 C13
+//@   props C03 C13 C14
 //@   holds TokenLimiter.mutex
-//@   trusted
-//@   readsclock
+//@   assume clock_stable
 //@   requires ratesOK(rates)
+//@   modifies nothing
 //@   ensures fresh_set: result != nil && fresh(result) && fresh(result.buckets) && allocated(result.buckets) && setOK(result) && conforms(result, rates)
 //@   ensures full: forall k int :: in(k, result.buckets) ==> fresh(result.buckets[k]) && result.buckets[k].availableTokens == result.buckets[k].burst && result.buckets[k].lastRefresh == lastclock && result.buckets[k].lastConsumed == 0
 //@   ensures max_period: (forall k int :: in(k, result.buckets) ==> k <= result.maxPeriod) && in(result.maxPeriod, result.buckets)
+//@   loop 1 invariant tbs != nil && fresh(tbs) && tbs.buckets != nil && fresh(tbs.buckets) && tbs.maxPeriod >= 0
+//@   loop 1 invariant forall k int :: in(k, tbs.buckets) <==> visited(k)
+//@   loop 1 invariant forall k int :: visited(k) ==> in(k, rates.m) && freshFull(tbs.buckets[k], rates.m[k])
+//@   loop 1 invariant forall k int :: visited(k) ==> k <= tbs.maxPeriod
+//@   loop 1 invariant tbs.maxPeriod == 0 || visited(tbs.maxPeriod)
+//@   loop 1 invariant forall k1 int, k2 int :: visited(k1) && visited(k2) && k1 != k2 ==> tbs.buckets[k1] != tbs.buckets[k2]
 
 //@ func (*TokenBucketSet).GetMaxPeriod
 //@   props C09
 //@   holds TokenLimiter.mutex
 //@   ensures result == tbs.maxPeriod
 
-//@ func (*TokenBucketSet).Update
+//@ func (*tokenBucket).update
 //@   props C03 C13
 //@   holds TokenLimiter.mutex
-//@   trusted
-//@   readsclock
+//@   requires tb != nil && rate != nil && rate.average >= 1 && tb.period >= 0
+//@   modifies tb.timePerToken, tb.burst, tb.availableTokens
+//@   ensures other_period_refused: rate.period != tb.period ==> result != nil && untouched(tb)
+//@   ensures rate_applied: rate.period == tb.period ==> result == nil && tb.timePerToken == tb.period / rate.average && tb.burst == rate.burst && tb.availableTokens == min(old(tb.availableTokens), rate.burst) && tb.lastRefresh == old(tb.lastRefresh) && tb.lastConsumed == old(tb.lastConsumed) && tb.period == old(tb.period)
+
+// kept(tbs, k): the bucket stored for period k is the one stored before the call
+//@ pred kept(tbs *TokenBucketSet, k int) = in(k, tbs.buckets) && old(in(k, tbs.buckets)) && tbs.buckets[k] == old(tbs.buckets[k])
+//@ pred reconfigured(tb *tokenBucket, r *rate) = tb.timePerToken == old(tb.period) / r.average && tb.burst == r.burst && tb.availableTokens == min(old(tb.availableTokens), r.burst) && tb.lastRefresh == old(tb.lastRefresh) && tb.lastConsumed == old(tb.lastConsumed) && tb.period == old(tb.period)
+//@ pred maxOK(tbs *TokenBucketSet) = (forall k int :: in(k, tbs.buckets) ==> k <= tbs.maxPeriod) && (tbs.maxPeriod == 0 || in(tbs.maxPeriod, tbs.buckets))
+//@ pred othersUntouched(tbs *TokenBucketSet) = forall tb *tokenBucket :: old(allocated(tb)) && !old(owns(tbs, tb)) ==> untouched(tb)
+
+//@ func (*TokenBucketSet).Update
+//@   props C03 C13 C14
+//@   holds TokenLimiter.mutex
+//@   assume clock_stable
 //@   requires setOK(tbs) && ratesOK(rates)
 //@   modifies tbs.maxPeriod, mapof(tbs.buckets), tokenBucket.timePerToken, tokenBucket.burst, tokenBucket.availableTokens
 //@   ensures keeps_set: setOK(tbs) && conforms(tbs, rates) && tbs.buckets == old(tbs.buckets)
 //@   ensures buckets_kept_or_fresh: forall k int :: in(k, tbs.buckets) ==> (old(in(k, tbs.buckets)) && tbs.buckets[k] == old(tbs.buckets[k])) || fresh(tbs.buckets[k])
-//@   ensures conforming_buckets_kept: old(conforms(tbs, rates)) ==> (forall k int :: in(k, tbs.buckets) ==> tbs.buckets[k] == old(tbs.buckets[k]) && untouched(tbs.buckets[k])) && tbs.maxPeriod == old(tbs.maxPeriod)
+//@   ensures conforming_buckets_kept: old(conforms(tbs, rates)) ==> (forall k int :: in(k, tbs.buckets) ==> tbs.buckets[k] == old(tbs.buckets[k]) && untouched(tbs.buckets[k]))
+//@   ensures max_period_is_the_maximum: maxOK(tbs)
+//@   ensures max_period_kept_when_conforming: old(conforms(tbs, rates)) && old(maxOK(tbs)) && old(tbs.maxPeriod) >= 1 ==> tbs.maxPeriod == old(tbs.maxPeriod)
 //@   ensures others_untouched: forall tb *tokenBucket :: old(allocated(tb)) && !old(owns(tbs, tb)) ==> untouched(tb)
+//@   loop 1 invariant tbs.buckets == old(tbs.buckets) && othersUntouched(tbs)
+//@   loop 1 invariant forall k int :: visited(k) ==> old(in(k, tbs.buckets))
+//@   loop 1 invariant forall k int :: !old(in(k, tbs.buckets)) ==> !in(k, tbs.buckets)
+//@   loop 1 invariant forall k int :: old(in(k, tbs.buckets)) && !visited(k) ==> kept(tbs, k) && untouched(tbs.buckets[k])
+//@   loop 1 invariant forall k int :: visited(k) && in(k, rates.m) ==> kept(tbs, k) && reconfigured(tbs.buckets[k], rates.m[k])
+//@   loop 1 invariant forall k int :: visited(k) && !in(k, rates.m) ==> !in(k, tbs.buckets)
+//@   loop 2 invariant tbs.buckets == old(tbs.buckets) && othersUntouched(tbs)
+//@   loop 2 invariant forall k int :: in(k, tbs.buckets) ==> in(k, rates.m)
+//@   loop 2 invariant forall k int :: in(k, tbs.buckets) && old(in(k, tbs.buckets)) ==> kept(tbs, k) && reconfigured(tbs.buckets[k], rates.m[k])
+//@   loop 2 invariant forall k int :: in(k, tbs.buckets) && !old(in(k, tbs.buckets)) ==> visited(k) && freshFull(tbs.buckets[k], rates.m[k])
+//@   loop 2 invariant forall k int :: old(in(k, tbs.buckets)) && in(k, rates.m) ==> in(k, tbs.buckets)
+//@   loop 2 invariant forall k int :: visited(k) ==> in(k, tbs.buckets)
+//@   loop 3 invariant tbs.buckets == old(tbs.buckets) && othersUntouched(tbs) && tbs.maxPeriod >= 0
+//@   loop 3 invariant forall k int :: in(k, tbs.buckets) <==> in(k, rates.m)
+//@   loop 3 invariant forall k int :: in(k, tbs.buckets) && old(in(k, tbs.buckets)) ==> kept(tbs, k) && reconfigured(tbs.buckets[k], rates.m[k])
+//@   loop 3 invariant forall k int :: in(k, tbs.buckets) && !old(in(k, tbs.buckets)) ==> freshFull(tbs.buckets[k], rates.m[k])
+//@   loop 3 invariant forall k int :: visited(k) ==> k <= tbs.maxPeriod && in(k, tbs.buckets)
+//@   loop 3 invariant tbs.maxPeriod == 0 || visited(tbs.maxPeriod)
 
 //@ func (*TokenLimiter).resolveRates
 //@   props C03 C13
